@@ -218,7 +218,7 @@ class DaemonError(Exception):
 
 
 class Reply:
-    __slots__ = ('kind', 'compute', 'fut', 'seq', 'held', 'info')
+    __slots__ = ('kind', 'compute', 'fut', 'seq', 'held', 'info', 'deliver_now')
 
     def __init__(self, kind, compute, fut, seq, info):
         self.kind = kind
@@ -278,14 +278,28 @@ class ScriptedDaemon:
         self.pending.append(r)
         return await r.fut
 
-    def deliver(self, reply):
+    def deliver(self, reply, later=False):
+        '''Answer from the daemon's state NOW.  later=True: the answer is computed now but
+        travels slowly - reply.deliver_now() hands it over.'''
         self.pending.remove(reply)
         if reply.fut.done():
             return
         try:
-            reply.fut.set_result(reply.compute())
+            value, exc = reply.compute(), None
         except Exception as e:          # daemon-side error travels to the caller
-            reply.fut.set_exception(e)
+            value, exc = None, e
+
+        def hand_over():
+            if reply.fut.done():
+                return
+            if exc is not None:
+                reply.fut.set_exception(exc)
+            else:
+                reply.fut.set_result(value)
+        if later:
+            reply.deliver_now = hand_over
+        else:
+            hand_over()
 
     def _daemon_error(self, msg):
         cls = self.errors_mod.DaemonError if self.errors_mod else DaemonError
@@ -367,6 +381,7 @@ class ScriptedDaemon:
 # ---- system assembly ------------------------------------------------------------------------------
 
 _PATCHED = False
+_FROZEN = False
 
 
 def patch_modules():
@@ -598,6 +613,16 @@ class World:
         self.loop.close()
         if destroy:
             self.machine.destroy()
+        # Collect this execution's garbage NOW, while no loop is current: coroutines of the
+        # abandoned tasks run their finally-blocks when collected, and if that happened during
+        # a later execution they would spawn tasks on ITS loop (observed: non-deterministic
+        # replays).  gc.freeze() keeps the cost proportional to one execution.
+        import gc
+        global _FROZEN
+        gc.collect()
+        if not _FROZEN:
+            _FROZEN = True
+            gc.freeze()
 
 
 class Stalled(Exception):
